@@ -44,8 +44,10 @@ func c17(c *Ctx) {
 				reach := an.Explore(f, an.After(ab), x.facts, nil)
 				bad := false
 				for _, ret := range reach.Returns() {
-					if reach.EvalAt(ret.Results[0], ret) != an.NonNil {
-						bad = true
+					for _, alt := range reach.Alts(ret) {
+						if reach.EvalAlt(alt, 0) != an.NonNil {
+							bad = true
+						}
 					}
 				}
 				r.Check(!bad, "PATH", fkey(f)+"/same-node-abort/"+x.name, c.InstrPos(ab), "a same-node reservation stops the job", "after the same-node abort ("+x.name+") the preparation can still return nil and the pod would be evicted")
@@ -63,8 +65,10 @@ func c17(c *Ctx) {
 			reach := an.Explore(f, an.After(cl), an.Facts{cl.Value(): an.NonNil}, nil)
 			bad := ""
 			for _, ret := range reach.Returns() {
-				if reach.EvalAt(ret.Results[0], ret) != an.NonNil {
-					bad = c.InstrPos(ret)
+				for _, alt := range reach.Alts(ret) {
+					if reach.EvalAlt(alt, 0) != an.NonNil {
+						bad = c.InstrPos(ret)
+					}
 				}
 			}
 			r.Check(bad == "", "ERR", fkey(f)+"/delete-error-propagates", c.InstrPos(cl), "a delete failure is returned", "after Client.Delete failed the function can return nil (at "+bad+"): the job is marked failed and never reconciled again while its reservation stays")
